@@ -10,7 +10,7 @@ RW = [(re.compile(r"\bgoast::"), "", "*"), (re.compile(r"\bgoty::"), "", "*"), (
 
 UNIT = Unit(
     name="U-DYNPAYLOAD",
-    properties=["C17"],
+    properties=["C17", "C10"],
     rules=["attrs"],
     describe="go::compile::dyn_payload: the value stored in the `data any` field of a dyn value is the compiled operand itself, except that a numeric LITERAL is wrapped in "
              "a conversion to the Go type of the type it was checked at (`int32(5)`): an untyped constant in an interface gets Go's default type (`int`, `float64`) and "
